@@ -16,6 +16,7 @@ using namespace verif;
 struct Val {
 	uint64_t key, version, check; // plain fields
 	Val(uint64_t k, uint64_t v) : key(k), version(v), check(mix(k, v)) {}
+	~Val() { check = 0xDEADDEADDEADDEADull; key = ~key; } // the end of the value's lifetime is observable: plain stores (a reader that can still reach the value races with them / sees a value that is not intact)
 	bool intact() const { return check == mix(key, version); }
 };
 
